@@ -101,9 +101,12 @@ Definition receive_many (c : config) (i : inst) (ms : list (msg * option chain))
   end.
 Definition start_with_queue (c : config) (i : inst) (now : Z) (ms : list (msg * option chain)) : inst :=
   receive_many c (step c (clear_out i) (EvStart now)) ms.
+(* the queue as messageQueue.Drain returns it: ordered by round (rounds are unsigned) *)
+Fixpoint rounds_sortedb (lo : Z) (ms : list (msg * option chain)) : bool :=
+  match ms with [] => true | (m, _) :: rest => (lo <=? m_round m) && rounds_sortedb (m_round m) rest end.
 (* trace whose first observation covers Start + ReceiveMany of the queued messages *)
 Definition traceq_ok (c : config) (input : chain) (now : Z) (queued : list (msg * option chain)) (first : obs) (tr : list (event * obs)) : bool :=
-  cfg_wfb c && forallb (fun p => wfmb (fst p)) queued && forallb (fun p => ev_okb (fst p)) tr &&
+  cfg_wfb c && forallb (fun p => wfmb (fst p)) queued && rounds_sortedb 0 queued && forallb (fun p => ev_okb (fst p)) tr &&
   let i1 := start_with_queue c (new_instance input 0) now queued in
   obs_matches i1 first && (o_err first || (run_trace c i1 tr 1 =? -1)).
 
